@@ -115,6 +115,15 @@ def run_programs(gw, rng, big=False):
     ch = gw.remote_exec("channel.send(channel.receive() * 2)")
     ch.send(21)
     T.append(["after-stdio", ch.receive(10)])
+    # 7b. remote code that rebinds sys.stdout / sys.stdin: the worker's own descriptors 0 and 1 stay open and are not handed out again
+    ch = gw.remote_exec("import gc, io, os, sys\nsys.stdout = io.StringIO()\nsys.stdin = io.StringIO()\ngc.collect()\n"
+                        "try:\n    os.write(1, b'raw')\n    r = 'fd1-open'\nexcept OSError:\n    r = 'fd1-closed'\n"
+                        "f = open(os.devnull)\nfresh = f.fileno() > 2\nf.close()\nchannel.send((r, fresh))")
+    T.append(["stdio-rebound", list(ch.receive(20))])
+    ch.waitclose(10)
+    ch = gw.remote_exec("channel.send(channel.receive() + 1)")
+    ch.send(1)
+    T.append(["after-rebind", ch.receive(10)])
     # 8. status
     st = gw.remote_status()
     T.append(["status", type(st.numchannels).__name__, type(st.numexecuting).__name__, st.execmodel == gw.spec.execmodel])
